@@ -552,6 +552,7 @@ func (c *client) keepalive() {
 		c.stateMu.Lock()
 		id, at := c.lastKeepaliveId, c.lastPongAt
 		c.stateMu.Unlock()
+		verifhook.Point("keepalive:check", uint64(id), uint64(time.Since(at)/time.Millisecond), uint64(c.dialOptions.KeepaliveTimeout/time.Millisecond))
 
 		if id == 0 {
 			return nil
